@@ -41,7 +41,7 @@ def strategy(tier, mode=None):
         else:
             c = draw(lossgen.loss_case(kinds=["Square"], weights=True, target_param="any-order", max_states=3, n_times=(3, 8), catalogue=1))
         c["part"] = "jtj" if mode in (None, "jtj") else "hessian"
-        if c["part"] == "jtj" and c["model"].get("family") == "chain" and draw(st.integers(0, 3)) == 0:
+        if c["part"] == "jtj" and c["model"].get("family") in ("chain", "epidemic") and draw(st.integers(0, 2)) == 0:
             # amounts measured in small units: states (and hence sensitivities) of order 1e-5, JTJ entries of order 1e-10
             c["setup"] = dict(c["setup"], x0=[S.sig(v * 1e-5, 4) for v in c["setup"]["x0"]])
             c["x0_eval"] = [S.sig(v * 1e-5, 4) for v in c["x0_eval"]]
